@@ -3944,7 +3944,14 @@ def fix_if_return(source: str) -> str:
     """
     replace = "return {{condition}}"
 
-    yield from processing.find_replace(source, find, replace, transaction=0)
+    # The value of a comparison or a negation is a bool, but other conditions must be converted
+    boolean_template = (ast.Compare, ast.UnaryOp(op=ast.Not))
+    for range_, replacement, transaction, template_match in processing.find_replace(
+        source, find, replace, transaction=0, yield_match=True
+    ):
+        if not core.match_template(template_match.condition, boolean_template):
+            replacement = re.sub(r"return (.*)", r"return bool(\1)", replacement, flags=re.DOTALL)
+        yield range_, replacement, transaction
 
     find = """
     if {{condition}}:
@@ -3975,7 +3982,17 @@ def fix_if_assign(source: str) -> str:
     """
     replace = "{{variable}} = {{condition}}"
 
-    yield from processing.find_replace(source, find, replace, transaction=0)
+    # The value of a comparison or a negation is a bool, but other conditions must be converted
+    boolean_template = (ast.Compare, ast.UnaryOp(op=ast.Not))
+    for range_, replacement, transaction, template_match in processing.find_replace(
+        source, find, replace, transaction=0, yield_match=True
+    ):
+        if not core.match_template(template_match.condition, boolean_template):
+            replacement = "{variable} = bool({condition})".format(
+                variable=core.unparse(template_match.variable),
+                condition=core.unparse(template_match.condition),
+            )
+        yield range_, replacement, transaction
 
     find = """
     if {{condition}}:
